@@ -7,6 +7,19 @@
 (* equal Difficulty.tla's, and the retarget properties hold on it.          *)
 (* Event: [k |-> "Diff", ct, h, w |-> <<<<ts, diff, scal, sec01>>, ...>>    *)
 (*         (latest first), diff, scal]  (diff = -1: the call panicked)      *)
+(* The functions the header rules take their numbers from are bound the     *)
+(* same way (a result of -1 = the call panicked = refused):                 *)
+(*   GraphWeight [ct, h, eb, ret]     consensus::graph_weight(h, eb)        *)
+(*   Version     [ct, h, ret, valid]  consensus::header_version(h) and      *)
+(*                                    valid_header_version(h, v), v = 1..6  *)
+(*   Params      [ct, ...]            global::min_edge_bits, base_edge_bits,*)
+(*                                    proofsize, initial_graph_weight,      *)
+(*                                    min_wtema_graph_weight,               *)
+(*                                    max_block_weight                      *)
+(*   PowDiff     [ct, h, eb, scaling, h30, ret]                             *)
+(*                                    ProofOfWork::to_difficulty(h) of a    *)
+(*                                    proof with edge_bits eb whose packed  *)
+(*                                    nonces hash (own blake2b) to h30...   *)
 (***************************************************************************)
 EXTENDS Difficulty, TLC, Json, IOUtils
 
@@ -22,7 +35,33 @@ TDiff == /\ l <= Len(Rec) /\ E.k = "Diff" /\ l' = l + 1
             /\ InRange(p, E.h, W)
             /\ LET r == NextDifficulty(p, E.h, W) IN E.diff = r.diff /\ E.scal = r.scal
             /\ MinOK(p, E.h, W) /\ StepOK(p, E.h, W)
-TSpec == TInit /\ [][TDiff]_l
+TGraphWeight ==
+  /\ l <= Len(Rec) /\ E.k = "GraphWeight" /\ l' = l + 1
+  /\ LET p == ChainParams[E.ct] IN
+     /\ E.eb >= p.baseEdgeBits
+     /\ E.ret = GraphWeight(p, E.h, E.eb)
+
+TVersion ==
+  /\ l <= Len(Rec) /\ E.k = "Version" /\ l' = l + 1
+  /\ LET p == ChainParams[E.ct] IN
+     /\ E.ret = HeaderVersion(p, E.h)
+     /\ Len(E.valid) = 6
+     /\ \A v \in 1..6 : (E.valid[v] = 1) = ValidHeaderVersion(p, E.h, v)
+
+TParams ==
+  /\ l <= Len(Rec) /\ E.k = "Params" /\ l' = l + 1
+  /\ LET p == ChainParams[E.ct] IN
+     /\ E.minEdgeBits = p.minEdgeBits /\ E.baseEdgeBits = p.baseEdgeBits /\ E.proofSize = p.proofSize
+     /\ E.initialGraphWeight = p.initialGraphWeight /\ E.minWtema = p.minWtema
+     /\ E.maxBlockWeight = p.maxBlockWeight
+
+TPowDiff ==
+  /\ l <= Len(Rec) /\ E.k = "PowDiff" /\ l' = l + 1
+  /\ LET p == ChainParams[E.ct] IN
+     /\ E.eb >= p.baseEdgeBits
+     /\ ProofDifficultyOK(ProofScale(p, E.h, E.eb, E.scaling), E.h30, E.ret)
+
+TSpec == TInit /\ [][TDiff \/ TGraphWeight \/ TVersion \/ TParams \/ TPowDiff]_l
 
 Accepted == LET d == TLCGet("stats").diameter IN
             IF d - 1 = Len(Rec) THEN TRUE
